@@ -89,6 +89,12 @@ class TimerQueue(object):
         # It should already be run, do it right now.
         wait_timed_out = True
 
+      if wait_timed_out and to_wait > 0 and self._time_source() < at:
+        # The wait is measured on the wall clock, the queue's own clock (which
+        # may be a low resolution one) has not reached the deadline yet.
+        # Re-loop and wait for the remainder.
+        continue
+
       if wait_timed_out:
         # Nothing newer came in before it timed out.
         at, seq, cancelled, action = heapq.heappop(self._queue)
